@@ -900,3 +900,21 @@ def is_bytes_mode_text_guard(test, var, enc_is_none=True):
     else:
         want = sorted(['self.encoding is not None', 'isinstance(%s, bytes)' % var])
     return texts == want
+
+
+def mapped_helper(repo, fi):
+    """The function a method maps over a list with `[h(x) for x in xs]`: (FuncInfo, index of the parameter that receives x, the
+    comprehension).  h is a local def of the method, or -- after a "move the closure to a method" refactoring -- a method of the
+    same class called as self.h (directly or through a local that holds the bound method).  None when there is no such unique map."""
+    found = []
+    for n in ast.walk(fi.node):
+        if isinstance(n, ast.ListComp) and len(n.generators) == 1 and isinstance(n.elt, ast.Call) and len(n.elt.args) == 1 and not n.elt.keywords \
+                and isinstance(n.generators[0].target, ast.Name) and isinstance(n.elt.args[0], ast.Name) and n.elt.args[0].id == n.generators[0].target.id:
+            fn = n.elt.func
+            if isinstance(fn, ast.Name) and fn.id in fi.nested:
+                found.append((fi.nested[fn.id][0], 0, n))
+            elif isinstance(fn, ast.Attribute) and isinstance(fn.value, ast.Name) and fn.value.id == 'self' and fi.cls is not None:
+                m_ = fi.cls.methods.get(fn.attr) if hasattr(fi.cls, 'methods') else None
+                if m_ is not None:
+                    found.append((m_, 1, n))
+    return found[0] if len(found) == 1 else None
